@@ -341,18 +341,13 @@ class Filtration(SimplicialComplex):
         of that order in the filtratrion up to and including the current index.
 
         :returns: a list of number of simplices at each order'''
-        nsos = super().numberOfSimplicesOfOrder()
-
-        # filter out any simplices not defined at the current index
-        empty = set()
-        for k in range(len(nsos)):
-            nsos[k] = len([s for s in nsos[k] if k in self])
-            if nsos[k] == 0:
-                empty.add(k)
+        # count only the simplices defined at the current index
+        nsos = [len([s for s in self.simplicesOfOrder(k) if s in self])
+                for k in range(self.maxOrder() + 1)]
 
         # delete any orders emptied by this process
-        for k in empty:
-            del nsos[k]
+        while len(nsos) > 0 and nsos[-1] == 0:
+            del nsos[-1]
 
         return nsos
 
